@@ -423,7 +423,9 @@ class HostConnection(object):
         conn = self._get_connection()
         if conn.orphaned_threshold_reached:
             with self._lock:
-                if not self._is_replacing:
+                # only the pool's current connection is ever replaced: `conn` may already have been
+                # replaced since it was read above
+                if not self._is_replacing and self._connection is conn:
                     self._is_replacing = True
                     self._session.submit(self._replace, conn)
                     log.debug(
@@ -476,8 +478,12 @@ class HostConnection(object):
             if is_down:
                 self.shutdown()
             else:
-                self._connection = None
                 with self._lock:
+                    if self._connection is not connection:
+                        # a connection that was already replaced (e.g. a trashed one): the pool's
+                        # current connection must not be dropped or replaced on its account
+                        return
+                    self._connection = None
                     if self._is_replacing:
                         return
                     self._is_replacing = True
